@@ -28,6 +28,10 @@ AbortsCode(conds, r, e) == \E c \in conds : MatchesX(c, r, e) \/ (c.t = "result"
 \* a breaker's delay function: the open delay it computes for the failure that trips the breaker (units), -1: none / defer to WithDelay
 DfnOf(p) == IF "dfn" \in DOMAIN p THEN p.dfn ELSE -1
 
+\* a retry policy's delay: fixed, or (p.rdf) a delay function that reads the failure it is asked about - the most recent completed
+\* attempt - from the execution: 1 unit after E1, 2 after E2, 3 after anything else
+RetryDelayOf(p, r, e) == IF "rdf" \in DOMAIN p /\ p.rdf THEN (IF Is(e, "E1") THEN 1 ELSE IF Is(e, "E2") THEN 2 ELSE 3) ELSE p.dly
+
 \* bursty rate limiter used sequentially without waiting: m permits per period of `per` units (0: one endless period),
 \* periods counted from the limiter's creation at time 0; state = [per: current period, left: permits left in it]
 RlRoll(p, st, now) == LET pi == IF p.per = 0 THEN 0 ELSE now \div p.per IN
